@@ -104,9 +104,7 @@ func c17LinkKiller(kills int) func(m *mkMesh, rng *verifkit.Rand) {
 			e := m.spec.Edges[rng.Intn(len(m.spec.Edges))]
 			side := e[rng.Intn(2)]
 			other := e[0] + e[1] - side
-			if c := m.nodes[side].a.peerMgr.GetPeer(m.nodes[other].a.ID()); c != nil {
-				c.Close()
-			}
+			mkKillLink(m.nodes[side].a, m.nodes[other].a.ID())
 		}
 	}
 }
@@ -313,9 +311,7 @@ func c17BackpressureKill(t *testing.T, r *verifkit.R) {
 			}
 		}
 		peakExit := mkBookOf(m.nodes[exitNode].a).ExitConns
-		if c := m.nodes[killer].a.peerMgr.GetPeer(m.nodes[other].a.ID()); c != nil {
-			c.Close()
-		}
+		mkKillLink(m.nodes[killer].a, m.nodes[other].a.ID())
 		cs := <-done
 		last, zero, unchanged, samples := c17Settle(m, 40*time.Second, 9*time.Second)
 		r.Add("bookkeeping_samples", samples)
@@ -385,9 +381,7 @@ func c17KillAtOpen(t *testing.T, r *verifkit.R) {
 			}
 			amu.Unlock()
 			if fire {
-				if c := exit.peerMgr.GetPeer(ev.Remote); c != nil {
-					c.Close()
-				}
+				mkKillLinkFromTap(exit, ev.Remote)
 			}
 		}
 		tap.mu.Unlock()
